@@ -167,7 +167,7 @@ func Respell(t *rapid.T, toks []gr.Tok) (string, RespellStats) {
 			}
 		case "string_lit":
 			content := tk.Text[1 : len(tk.Text)-1]
-			canSwitch := !strings.ContainsAny(content, "\\\"`\n")
+			canSwitch := switchable(content)
 			if canSwitch && rapid.Bool().Draw(t, "switchQuote") {
 				if tk.Text[0] == '"' {
 					text = "`" + content + "`"
@@ -209,4 +209,24 @@ func decodeCanon(lit string) (rune, bool) {
 		return 0, false
 	}
 	return g.Lex[0].Pat.Lo, true
+}
+
+// switchable: the content can be carried unchanged by both quoting styles.
+// gocc takes the text between the quotes as it stands in either style; in the
+// interpreted style a backslash only matters for finding the closing quote (it
+// hides the character after it), so backslashes are fine as long as every one
+// of them has a character to hide and the content holds no quote of either kind.
+func switchable(content string) bool {
+	if strings.ContainsAny(content, "\"`\n") || content == "" {
+		return false
+	}
+	for i := 0; i < len(content); i++ {
+		if content[i] == '\\' {
+			i++
+			if i >= len(content) {
+				return false
+			}
+		}
+	}
+	return true
 }
